@@ -172,6 +172,15 @@ fn subjects(ctx: &Ctx, env: &Env) -> Vec<Subject> {
         let main = RawHeader::layout(&[(1000, Val::str("n")), (1003, Val::Int32(vec![7])), (1004, Val::i18n(&["s"]))]);
         add(format!("hand-encoded-pad{}", pad), assemble(&RawLead::new("n"), &sig, 0, &main, b"payload").0);
     }
+    // packages without a single payload byte (the file ends where the payload would start)
+    {
+        let sig = RawHeader::new(vec![RawEntry { tag: 1004, ty: 7, offset: 0, count: 9 }], (0..9u8).collect());
+        let main = RawHeader::layout(&[(1000, Val::str("n")), (1003, Val::Int32(vec![7])), (1004, Val::i18n(&["s"]))]);
+        add("hand-encoded-no-payload".into(), assemble(&RawLead::new("n"), &sig, 0, &main, b"").0);
+        let b = crate::corpus::one_file().build_bytes(env).unwrap().1;
+        let off = scan(&b).unwrap().3.payload_off;
+        add("built-one-file-cut-at-the-payload".into(), b[..off].to_vec());
+    }
     // main headers (without a region trailer at the end) whose store ends with each kind of data
     for (nm, last) in [("string", Val::str("last-string")), ("binary", Val::Bin(vec![1, 2, 3, 4, 5])), ("int32", Val::Int32(vec![1, 2])), ("string-array", Val::strs(&["x", "yz"]))] {
         let main = RawHeader::layout(&[(1003, Val::Int32(vec![7])), (1004, Val::i18n(&["s"])), (1000, last)]);
